@@ -238,7 +238,10 @@ def run_chunk(idx, scens, timeout):
     if len(impl) < len(flat):
         impl += ['crash'] * (len(flat) - len(impl))
     impl = impl[:len(flat)]
-    rc2, mout = sh([MODEL_BIN], input=('\n'.join(flat) + '\n').encode(), timeout=600)
+    # nondeterministic background events observed by the implementation are handed to the model as
+    # annotations; the model checks that they were enabled
+    minput = [l + (' @switched' if o.endswith(' switched') else '') for l, o in zip(flat, impl)]
+    rc2, mout = sh([MODEL_BIN], input=('\n'.join(minput) + '\n').encode(), timeout=600)
     model = mout.splitlines()
     if len(model) < len(flat):
         model += ['model-crash'] * (len(flat) - len(model))
@@ -258,7 +261,7 @@ def run_chunk(idx, scens, timeout):
     return res
 
 
-PROTO = re.compile(r'^(ok|bad-op|err |found |deleted |notfound|n=|list|counts |#|panic |skipped |crash|trace |snap |bits |some |none|val )')
+PROTO = re.compile(r'^(ok|alive|dead|switched|noswitch|bad-op|err |found |deleted |notfound|n=|list|counts |#|panic |skipped |crash|trace |snap |bits |some |none|val )')
 
 
 def is_protocol_line(l):
